@@ -17,6 +17,13 @@ class _:
                "load_metadata_for_topics": dict(ret="Deferred?", trace="LoadMetadata")}
 
 
+@klass("ext.GroupProtocol")
+class _:
+    external = True
+    fields = {"protocol_type": ("str", False)}
+    methods = {"join_group_protocols": dict(ret="List[_JoinGroupRequestProtocol]"), "generate_assignments": dict(ret="Any"), "decode_assignment": dict(ret="Any")}
+
+
 @klass("afkak._group.Coordinator")
 class _:
     props = ["C16", "C17"]
@@ -26,7 +33,9 @@ class _:
               "_start_d": "Optional[Ref_Deferred]", "_state": "str", "_rejoin_needed": "bool", "_stopping": "bool",
               "_rejoin_wait_dc": "Optional[Ref_DelayedCall]", "_rejoin_d": "Optional[Ref_Deferred]",
               "_heartbeat_looper": ("Ref_LoopingCall", False), "_heartbeat_looper_d": "Optional[Ref_Deferred]",
-              "_heartbeat_request_d": "Optional[Ref_Deferred]"}
+              "_heartbeat_request_d": "Optional[Ref_Deferred]",
+              "session_timeout_ms": ("int", False), "protocol": ("Ref_GroupProtocol", False), "topics": ("Any", False),
+              "leader_id": "Any"}
     invariant = {
         # C17: a scheduled rejoin is represented by a PENDING timer (a fired one kept here would block every later rejoin)
         "rejoin-wait-live": "self._rejoin_wait_dc is None or active(self._rejoin_wait_dc)",
@@ -103,3 +112,15 @@ contract(G + "join_and_sync.<rejoin_d_errback>")(type('_', (), dict(
              # the property also wants a non-Kafka error to surface on start()'s Deferred: the code only logs it
              # (pinned by test_group.py::test_join_fatal_exception) -> KNOWN_FINDINGS.txt
              "escaped-non-kafka-errors-surface[C17]": "implies(not exc_is(p_result, 'KafkaError'), n_calls('rejoin_after_error') == 1)"})))
+
+
+# ---- C11: a group join is bounded by the stated longer minimum (35 s), whatever the session timeout -------------------
+contract(G + "send_join_group_request.<_join_group_success>")(type('_', (), dict(
+    sig="(response: _JoinGroupResponse) -> _JoinGroupResponse", props=["C16"], entry_point=True,
+    closure_env={"self": "Ref_Coordinator"},
+    ensures={"records-the-generation[C16]": "self.member_id == response.member_id and self.generation_id == response.generation_id "
+                                            "and result == response"})))
+
+method("send_join_group_request", "(%s) -> Ref_Deferred" % SELF, props=["C11", "C16"],
+       checkpoints={"call:addCallbacks#1": {
+           "join-allowed-the-stated-minimum[C11]": "n_events('GroupRequest') == 1 and event_arg('GroupRequest', 0, 4) == 35.0"}})
